@@ -309,6 +309,10 @@ class Fish:
     x: int = 0
 
 @dataclass
+class Bee:
+    type: str  # the discriminator declared as a plain required field (no alias, no default)
+    x: int = 0
+@dataclass
 class Eel:
     type_: Literal["eel", "anguilla"] = field(default="eel", metadata=alias("type"))
     x: int = 0
@@ -331,6 +335,7 @@ NoOverride = Annotated[Union[Cat, Dog], discriminator("type", {"c": Cat}, overri
 WithLiteral = Annotated[Union[Cat, Bird], discriminator("type")]
 WithStrField = Annotated[Union[Cat, Fish], discriminator("type")]
 WithAliasedLiteral = Annotated[Union[Cat, Eel], discriminator("type")]
+WithPlainStrField = Annotated[Union[Cat, Bee], discriminator("type")]
 
 @discriminator("kind")
 class Pet:
@@ -367,6 +372,7 @@ EXPECT = {
     "NoOverride": (NoOverride, "type", {"c": Cat, "Cat": Cat, "Dog": Dog}, set()),
     "WithLiteral": (WithLiteral, "type", {"Cat": Cat, "bird": Bird, "avian": Bird}, {Bird}),
     "WithStrField": (WithStrField, "type", {"Cat": Cat, "Fish": Fish}, {Fish}),
+    "WithPlainStrField": (WithPlainStrField, "type", {"Cat": Cat, "Bee": Bee}, {Bee}),
     "WithAliasedLiteral": (WithAliasedLiteral, "type", {"Cat": Cat, "eel": Eel, "anguilla": Eel}, {Eel}),
     "Inherited": (Inherited, "kind", {"Kitten": Kitten, "Puppy": Puppy}, {Puppy}),
     "PetBase": (Pet, "kind", {"Kitten": Kitten, "Puppy": Puppy}, {Puppy}),
